@@ -40,8 +40,8 @@ def run(rep, tier, replay):
     pol = sched.policy_of(exe)
     xtab = [t for t in shapes.EXPAND_QUICK if t[0] in ("xq_plain", "xq_straddle", "xq_cand_ok", "xq_blk_crc", "xq_w1")]
     if tier == "thorough":
-        xtab = shapes.EXPAND_QUICK + [shapes.random_expand_shape(rng, i) for i in range(10)]
-    mbad = sched.mc_legs(rep, [("expand", xtab)], pol)
+        xtab = shapes.EXPAND_QUICK + [shapes.random_expand_shape(rng, i) for i in range(6)]
+    mbad = sched.mc_legs(rep, [("expand", xtab)], pol, timeout=600 if tier == "thorough" else 900)
     # (G) every suspension point of the run-length emitter: Emit.tla behaviours through the real emit()
     srcdir = os.path.join(os.path.dirname(exe), "src")
     for line, beh in inproc.emit_leg(rep, srcdir, tier):
@@ -49,7 +49,7 @@ def run(rep, tier, replay):
                       dict(kind="inproc", cls="emit-replay", harness="replay_emit", behaviour=beh, failure=line))
     files = corpus(rng, tier)
     cases = []
-    nvar = 8 if tier == "quick" else 40
+    nvar = 8 if tier == "quick" else 24
     for name, data in files:
         try:                                              # one-byte output buffers only for tiny outputs
             small_out = len(bz2.decompress(data)) <= 1500
